@@ -7,7 +7,6 @@ use std::sync::Arc;
 use verif_rt::core::ExecResult;
 use verif_rt::explore::{Finding, Scenario};
 use verif_rt::thread::spawn_client;
-use verif_rt::RunOpts;
 
 #[derive(Clone, Debug)]
 struct P {
